@@ -4,6 +4,7 @@ package verifsim
 import (
 	"verifsim/dbworld"
 	"verifsim/kernel"
+	"verifsim/storeworld"
 )
 
 // Outcome is what a case reports besides the violation kept in the Sim.
@@ -76,6 +77,19 @@ func concCase(prop, engine string, weight int, free bool, oracles map[string]boo
 		}}
 }
 
+func storeCase(prop, engine string, weight int, run func(*kernel.Sim) *storeworld.World) Case {
+	return Case{Prop: prop, Engine: engine, Weight: weight,
+		Real: []string{"client/setec Store, Updater, watcher, MemCache, FileCache, FileClient, Fields.Apply", "x/sync/singleflight", "package time under testing/synctest (virtual clock)"},
+		Stub: []string{"secrets service (scripted StoreClient)", "goroutine scheduler (baton at lock and service park points)", "poll ticker (PollTicker seam) except in the cadence scenario"},
+		Run: func(s *kernel.Sim) Outcome {
+			w := run(s)
+			if w == nil {
+				return Outcome{}
+			}
+			return Outcome{Trace: w.Trace, Nontrivial: w.Ops > 0, Ops: w.Ops}
+		}}
+}
+
 // Cases lists every (property, engine) pair.
 var Cases = []Case{
 	seqCase("C02", "dbworld-seq", 1, dbworld.Profile{MaxOps: 40, MaxNames: 3,
@@ -96,6 +110,8 @@ var Cases = []Case{
 	concCase("C14", "dbworld-conc", 1, false, orc("linearizable", "deadlock")),
 	concCase("C14", "dbworld-conc-free", 1, true, orc("linearizable", "deadlock")),
 	concCase("C06", "dbworld-conc-free", 1, true, orc("audit-file")),
+	storeCase("C10", "storeworld-ctor", 1, storeworld.RunC10),
+	storeCase("C16", "storeworld-lookup", 1, storeworld.RunC16),
 }
 
 // CasesFor returns the cases of a property.
